@@ -122,7 +122,7 @@ func Stat(name string) (FileInfo, error) {
 	}
 	return info{i}, nil
 }
-func Lstat(name string) (FileInfo, error)       { return Stat(name) }
+func Lstat(name string) (FileInfo, error) { return Stat(name) }
 
 // SameFile: the simulated disk has no links, two infos name the same file
 // exactly when they carry the same name.
